@@ -298,7 +298,7 @@ def class_reference(rules, attrs):
 # ---- the observer ---------------------------------------------------------------------------------
 # per-instance record (all hashable)
 Inst = namedtuple('Inst', 'softdone have hurry owed expired modes creds stamp vouched xvouched msent '
-                          'refused pcount more_pending queried oksvc alt')
+                          'refused pcount more_pending queried oksvc alt requery okfirm')
 
 
 def caddr(c, inst):
@@ -310,15 +310,17 @@ def caddr(c, inst):
 
 def fresh_inst():
     return Inst(False, frozenset(), False, frozenset(), False, frozenset(), None, False, frozenset(), False,
-                False, False, 0, frozenset(), frozenset(), frozenset(), False)
+                False, False, 0, frozenset(), frozenset(), frozenset(), False, frozenset(), frozenset())
 
 
 class World:
     """Static facts of one search: configured services, rule table, policy letters, timeout."""
 
-    def __init__(self, services, rules, banner, timeout, pbudget=3):
+    def __init__(self, services, rules, banner, timeout, pbudget=3, dynamic=False, all_types=None):
         self.services = list(services)            # [(name, type)] in config order
         self.stype = dict(services)
+        self.dynamic = dynamic                    # one of several service tables a search reloads between
+        self.all_types = dict(all_types or services)   # protocol of every service any of those tables names (a removed service may still owe a reply)
         self.rules = list(rules)
         self.timeout = timeout
         self.pbudget = pbudget
@@ -458,6 +460,8 @@ def step(w, M, ev, ctx_pre, new_serial, out_lines, addr_check=True):
             W.add('challenge-answer')
             pend = inst.more_pending
             for s in sorted(pend):
+                if w.dynamic and s not in w.stype:
+                    continue        # the challenger has left the table since: the statement does not say where the answer goes
                 expect.append(('C06.challenge-answer', 'X %s <tag> :MORE %s' % (s, text),
                                (lambda lines, s=s, text=text: any(p.kind == 'x' and p.svc == s and p.text == 'MORE ' + text for p in lines))))
             inst = inst._replace(more_pending=frozenset())
@@ -484,13 +488,13 @@ def step(w, M, ev, ctx_pre, new_serial, out_lines, addr_check=True):
         else:
             reply_for = (svc, rk)
             W.add('reply-' + rk)
-            stype = w.stype.get(svc, 'login')
+            stype = w.stype.get(svc) or w.all_types.get(svc, 'login')
             inst = inst._replace(owed=inst.owed - {svc})
             if inst.expired:
                 W.add('reply-after-timeout')
             c = CLIENTS[i]
             if rk in ('OK', 'OKE') or rk in ACCOUNT_KINDS:
-                inst = inst._replace(oksvc=inst.oksvc | {svc})
+                inst = inst._replace(oksvc=inst.oksvc | {svc}, okfirm=(inst.okfirm | {svc}) if svc in w.stype else inst.okfirm)
             if rk in ACCOUNT_KINDS:
                 if stype in LOGIN_TYPES:
                     acct = vouched_account(rk, i, svc)
@@ -579,7 +583,17 @@ def step(w, M, ev, ctx_pre, new_serial, out_lines, addr_check=True):
                 want_cls, _tr = class_reference(w.rules, dict(
                     account=acct, addr=caddr(cj, cur)[0], ident=(cj['ident'][:10] if 'u' in cur.have else ''),
                     host=(cj['host'][:63] if 'N' in cur.have else ''), ok_services=cur.oksvc))
-                if cls != want_cls:
+                alt_cls = {want_cls}
+                if w.dynamic and cur.oksvc != cur.okfirm:
+                    # an OK from a service (incarnation) that has since left the table, or had left it when it answered: the statement does not say whether
+                    # a rule naming that service still counts - every reading between "none of them" and "all of them" is accepted
+                    loose = sorted(cur.oksvc - cur.okfirm)
+                    for m in range(1 << len(loose)):
+                        sub = cur.okfirm | {x for b, x in enumerate(loose) if m >> b & 1}
+                        alt_cls.add(class_reference(w.rules, dict(
+                            account=acct, addr=caddr(cj, cur)[0], ident=(cj['ident'][:10] if 'u' in cur.have else ''),
+                            host=(cj['host'][:63] if 'N' in cur.have else ''), ok_services=sub))[0])
+                if cls not in alt_cls:
                     V.append(('C05.wrong-class', 'accepted with class %r, the rules give %r (%r)' % (cls, want_cls, line)))
                 if cls:
                     W.add('accept-with-class')
@@ -604,12 +618,13 @@ def step(w, M, ev, ctx_pre, new_serial, out_lines, addr_check=True):
                 continue
             if i is not None and j != i:
                 V.append(('C07.cross-client', 'event %s produced query %r for another client' % (ev_str(ev), line)))
-            if p.svc not in w.stype:
-                # not in the table the search started with (a reload may have added it): judged by C06 only; the debt is real either way
+            if p.svc not in w.stype and not (p.text.startswith('MORE ') and p.svc in w.all_types):
+                # not in the table in force (the one the search started with, or the last one reloaded): judged by C06 only; the debt is real either way
+                # (the answer to a challenge still goes to the service that asked, configured or not)
                 V.append(('C06.unknown-service', 'query %r to a service that is not configured' % line))
                 st[j] = cur._replace(owed=cur.owed | {p.svc}, queried=cur.queried | {p.svc})
                 continue
-            stype = w.stype[p.svc]
+            stype = w.stype.get(p.svc) or w.all_types[p.svc]
             W.add('query-' + p.text.split(' ')[0])
             if p.text.startswith('MORE '):
                 pass  # checked by the challenge-answer expectation
@@ -619,11 +634,11 @@ def step(w, M, ev, ctx_pre, new_serial, out_lines, addr_check=True):
                 wantl = expected_queries(w, j, p.svc, cur, 'first')
                 if p.text not in wantl:
                     V.append(('C06.query-content', 'query %r differs from the client\'s own data, expected one of %r' % (line, wantl)))
-                if p.svc in queried_before.get(j, ()) and k != 'P':
+                if p.svc in queried_before.get(j, ()) and k != 'P' and p.svc not in cur.requery:
                     V.append(('C06.query-repeated', 'service %s asked again (%r) on a non-password event' % (p.svc, line)))
-                if p.svc in queried_before.get(j, ()) and stype == 'dronecheck':
+                if p.svc in queried_before.get(j, ()) and stype == 'dronecheck' and p.svc not in cur.requery:
                     V.append(('C06.query-repeated', 'dronecheck service %s asked twice (%r)' % (p.svc, line)))
-            st[j] = cur._replace(owed=cur.owed | {p.svc}, queried=cur.queried | {p.svc})
+            st[j] = cur._replace(owed=cur.owed | {p.svc}, queried=cur.queried | {p.svc}, requery=cur.requery - {p.svc})
 
     # ---- step-level expectations ----------------------------------------------------------------
     for tag, desc, fn in expect:
@@ -640,6 +655,10 @@ def step(w, M, ev, ctx_pre, new_serial, out_lines, addr_check=True):
             for s, t in w.services:
                 if not ready_before.get(s, False) and ready(w, t, cur) and s not in cur.queried:
                     V.append(('C06.query-skipped', 'after %s the data protocol %s needs is known but service %s was not queried' % (ev_str(ev), t, s)))
+                elif w.dynamic and k in ('N', 'd', 'u', 'u0', 'n', 'U', 'H') and ready(w, t, cur) and s not in cur.queried:
+                    # a service a reload brought in while the client waits: the data it needs is known, so the next data event must not pass it over
+                    V.append(('C06.query-skipped', 'after %s service %s (added by a reload) is configured and the data protocol %s needs is known, yet it has never been queried about this client'
+                              % (ev_str(ev), s, t)))
                 if k == 'P' and t in ('login', 'login-ipr') and ready(w, t, cur) and ready_before.get(s, False) \
                         and PASSWORDS[ev[2]][1] and not any(p.kind == 'x' and p.svc == s for p in parsed) and not (M_get(M, i).more_pending if M_get(M, i) else False):
                     V.append(('C06.relogin-skipped', 'a new well-formed password did not produce a query to %s' % s))
@@ -652,6 +671,14 @@ def step(w, M, ev, ctx_pre, new_serial, out_lines, addr_check=True):
                       % (j, ' (hurry-up)' if cur.hurry else '', 'an expired timeout' if cur.owed else 'every query answered', ev_str(ev))))
     Mn = tuple(sorted(st.items()))
     return Mn, V, W
+
+
+def reload_step(M, w_old, w_new):
+    """Observer effect of a successful reload from table w_old to w_new: a service that left the table may be asked again once it returns."""
+    gone = set(w_old.stype) - set(w_new.stype)
+    if not gone:
+        return M
+    return tuple((i, (inst._replace(requery=inst.requery | (gone & inst.queried), okfirm=inst.okfirm - gone) if inst is not None else None)) for i, inst in M)
 
 
 def M_get(M, i):
